@@ -285,10 +285,70 @@ type pipeLink struct {
 	capTabs  int32 // sends with a non-nil CapTable (contract breach by the Conn)
 
 	sentToConn int32 // messages the peer handed to the Conn
+
+	sending           int32 // send() calls executing right now
+	unreleased        int32 // messages created and not yet released
+	closeReturned     int32
+	unreleasedAtClose int32 // messages still unreleased when Transport.Close was called
+	recvCanceled      int32 // RecvMessage returned because its Context ended
+	ovMu              sync.Mutex
+	overlap           string // first contract breach observed
+
+	// holdRet delays the transmission of the Return for one answer id until
+	// the script lets it go (a slow / back-pressured link).
+	holdArmed   int32
+	holdFinish  bool // hold the first Finish instead of a Return
+	holdAnswer  uint32
+	holdOnce    sync.Once
+	holdSending chan struct{} // closed when that Return is about to be sent
+	holdProceed chan struct{} // closed by the script to let it go
 }
 
 func newPipeLink(tr *opTracker) *pipeLink {
 	return &pipeLink{tr: tr, toPeer: newMailbox(), toConn: newMailbox()}
+}
+
+// armHold must be called before the Conn can produce the Return.
+func (p *pipeLink) armHold(answer uint32) {
+	p.holdAnswer = answer
+	p.holdSending = make(chan struct{})
+	p.holdProceed = make(chan struct{})
+	atomic.StoreInt32(&p.holdArmed, 1)
+}
+
+// armHoldFinish holds back the send of the next Finish message.
+func (p *pipeLink) armHoldFinish() {
+	p.holdFinish = true
+	p.holdSending = make(chan struct{})
+	p.holdProceed = make(chan struct{})
+	atomic.StoreInt32(&p.holdArmed, 1)
+}
+
+// transport-use monitor: send() is only ever executed under the sender lock
+// (or by shutdown once every task is gone), so no NewMessage / send / Close
+// of the same transport may start while a send is executing, and nothing may
+// be called after Close returned.
+func (p *pipeLink) enter(op string) {
+	if atomic.LoadInt32(&p.sending) > 0 {
+		p.noteOverlap(op + "-during-send")
+	}
+	if atomic.LoadInt32(&p.closeReturned) != 0 {
+		p.noteOverlap(op + "-after-close")
+	}
+}
+
+func (p *pipeLink) noteOverlap(what string) {
+	p.ovMu.Lock()
+	if p.overlap == "" {
+		p.overlap = what
+	}
+	p.ovMu.Unlock()
+}
+
+func (p *pipeLink) overlapSeen() string {
+	p.ovMu.Lock()
+	defer p.ovMu.Unlock()
+	return p.overlap
 }
 
 func (p *pipeLink) Transport() rpc.Transport { return (*pipeTransport)(p) }
@@ -326,6 +386,7 @@ type pipeTransport pipeLink
 
 func (t *pipeTransport) NewMessage(ctx context.Context) (rpccp.Message, func() error, capnp.ReleaseFunc, error) {
 	p := (*pipeLink)(t)
+	p.enter("NewMessage")
 	_, inject := p.tr.op(opNew)
 	if atomic.LoadInt32(&p.closed) != 0 {
 		atomic.AddInt32(&p.useAfter, 1)
@@ -342,7 +403,11 @@ func (t *pipeTransport) NewMessage(ctx context.Context) (rpccp.Message, func() e
 	if err != nil {
 		return rpccp.Message{}, nil, nil, err
 	}
+	atomic.AddInt32(&p.unreleased, 1)
 	send := func() error {
+		p.enter("send")
+		atomic.AddInt32(&p.sending, 1)
+		defer atomic.AddInt32(&p.sending, -1)
 		_, inject := p.tr.op(opSend)
 		if atomic.LoadInt32(&p.closed) != 0 {
 			atomic.AddInt32(&p.useAfter, 1)
@@ -350,6 +415,22 @@ func (t *pipeTransport) NewMessage(ctx context.Context) (rpccp.Message, func() e
 		}
 		if inject {
 			return errInjected
+		}
+		if atomic.LoadInt32(&p.holdArmed) != 0 {
+			hold := false
+			if p.holdFinish {
+				hold = rmsg.Which() == rpccp.Message_Which_finish
+			} else if rmsg.Which() == rpccp.Message_Which_return {
+				ret, err := rmsg.Return()
+				hold = err == nil && ret.AnswerId() == p.holdAnswer
+			}
+			if hold {
+				first := false
+				p.holdOnce.Do(func() { first = true; close(p.holdSending) })
+				if first {
+					<-p.holdProceed
+				}
+			}
 		}
 		if err := ctx.Err(); err != nil {
 			return err
@@ -366,7 +447,11 @@ func (t *pipeTransport) NewMessage(ctx context.Context) (rpccp.Message, func() e
 		}
 		return nil
 	}
-	return rmsg, send, func() { msg.Reset(nil) }, nil
+	var relOnce sync.Once
+	return rmsg, send, func() {
+		relOnce.Do(func() { atomic.AddInt32(&p.unreleased, -1) })
+		msg.Reset(nil)
+	}, nil
 }
 
 func (t *pipeTransport) RecvMessage(ctx context.Context) (rpccp.Message, capnp.ReleaseFunc, error) {
@@ -387,6 +472,7 @@ func (t *pipeTransport) RecvMessage(ctx context.Context) (rpccp.Message, capnp.R
 	case mbClosed:
 		return rpccp.Message{}, nil, io.EOF
 	case mbCanceled:
+		atomic.StoreInt32(&p.recvCanceled, 1)
 		return rpccp.Message{}, nil, ctx.Err()
 	}
 	atomic.AddInt64(p.tr.progress, 1)
@@ -404,6 +490,11 @@ func (t *pipeTransport) RecvMessage(ctx context.Context) (rpccp.Message, capnp.R
 
 func (t *pipeTransport) Close() error {
 	p := (*pipeLink)(t)
+	p.enter("Close")
+	if n := atomic.LoadInt32(&p.unreleased); n > 0 {
+		atomic.AddInt32(&p.unreleasedAtClose, n)
+	}
+	defer atomic.StoreInt32(&p.closeReturned, 1)
 	if !atomic.CompareAndSwapInt32(&p.closed, 0, 1) {
 		return errors.New("verif pipe: already closed")
 	}
